@@ -9,7 +9,7 @@ git -C /repo worktree add -q --detach $M HEAD || exit 3
 trap "git -C /repo worktree remove --force $M 2>/dev/null; git -C /repo worktree prune" EXIT
 PATCH=$SD/patch.diff
 [ -f $SD/patch.rebased.diff ] && PATCH=$SD/patch.rebased.diff
-if ! git -C $M apply $PATCH 2>/tmp/se-$$.err && [ ! -f $SD/patch.rebased.diff ]; then
+if ! git -C $M apply --check $PATCH 2>/dev/null && [ ! -f $SD/patch.rebased.diff ]; then
   # the repair 851e135 renamed the conversion call inside interpreter methods: carry older patches over that rename
   sed -e 's/= convertReflectValueToType(/= runInfo.convertValue(/' -e 's/return convertReflectValueToType(rv, rt)/return runInfo.convertValue(rv, rt)/' $SD/patch.diff > /tmp/se-$$.renamed
   if git -C $M apply /tmp/se-$$.renamed 2>/dev/null && (cd $M && go build ./... >/dev/null 2>&1); then
